@@ -94,6 +94,33 @@ def seq_three_segments(split: int, pad0: int, tl0: bool, pad1: int, cs1: bool, e
     return got == R.expected(recs)
 
 
+VR_LENGTHS = [20, 8192, 16382, 16384]       # minimum, a common size, just below and exactly the RP66V1 maximum (2.3.6: 16384)
+
+
+def vr_length_boundaries(k0: int, k1: int, pad: int, tl: bool) -> bool:
+    """
+    pre: 0 <= k0 <= 3 and 0 <= k1 <= 3 and 0 <= pad <= 2
+    post: _
+    """
+    k0, k1, pad, tl = mark.pick(k0, 0, 3), mark.pick(k1, 0, 3), mark.pick(pad, 0, 2), mark.pickb(tl)
+    with mark.untraced():
+        recs = []
+        for r, k in enumerate((k0, k1)):
+            # one segment that fills its visible record exactly: VR length = 4 + segment length
+            extra = (pad + pad % 2) + (2 if tl else 0)
+            n = VR_LENGTHS[k] - 8 - extra
+            payload = bytes([(7 * i + r) % 251 for i in range(n)])
+            recs.append((r == 0, 3 + r, [dict(payload=payload, pad=pad + pad % 2, checksum=False, trailing=tl, encrypted=False, new_vr=True)]))
+        sul = b'0001V1.00RECORD16384' + b'Default Storage Set'.ljust(60)
+        data, layout = R.encode(recs, sul)
+        for r, k in enumerate((k0, k1)):
+            if ((data[layout[r][0]] << 8) | data[layout[r][0] + 1]) != VR_LENGTHS[k]:
+                return True       # (cannot happen: the builder is exact)
+        got = _read_all(data)
+        mark.hit()
+        return got == R.expected(recs)
+
+
 def sul_fields_seq(d1: int, d2: int, d3: int) -> bool:
     """
     pre: 0 <= d1 <= 10 and 0 <= d2 <= 10 and 0 <= d3 <= 9
@@ -188,6 +215,19 @@ def _index_and_fetch(recs, i, off, ln, j):
             return False
         if fld.lr_type != exp[i][1] or fld.lr_is_eflr != exp[i][0]:
             return False
+        # the same fetch addressed by the index entry's position instead of its number
+        if ln is None:
+            fld2 = idx.get_file_logical_data_at_position(idx[i].position)
+        else:
+            fld2 = idx.get_file_logical_data_at_position(idx[i].position, off, ln)
+        if fld2.logical_data.bytes != want or fld2.lr_type != exp[i][1] or fld2.lr_is_eflr != exp[i][0]:
+            return False
+        # ... and a short slice through both entry points (offset and length must both be honoured)
+        for o_, l_ in ((1, 3), (0, 2), (5, 0)):
+            if idx.get_file_logical_data(i, o_, l_).logical_data.bytes != exp[i][2][o_:o_ + l_]:
+                return False
+            if idx.get_file_logical_data_at_position(idx[i].position, o_, l_).logical_data.bytes != exp[i][2][o_:o_ + l_]:
+                return False
         # bytes touched: only inside the visible records that hold record i
         spans = []
         for vr, sp, sl in layout[i][2]:
